@@ -93,10 +93,10 @@ func (n *fakeNet) addHost(id peer.ID, all []peer.ID) *fakeHost {
 	return h
 }
 
-func (h *fakeHost) ID() peer.ID                                       { return h.id }
-func (h *fakeHost) Peerstore() peerstore.Peerstore                    { return h.ps }
+func (h *fakeHost) ID() peer.ID                                         { return h.id }
+func (h *fakeHost) Peerstore() peerstore.Peerstore                      { return h.ps }
 func (h *fakeHost) Connect(ctx context.Context, pi peer.AddrInfo) error { return nil }
-func (h *fakeHost) Close() error                                      { return h.ps.Close() }
+func (h *fakeHost) Close() error                                        { return h.ps.Close() }
 func (h *fakeHost) SetStreamHandler(pid protocol.ID, f network.StreamHandler) {
 	h.mu.Lock()
 	h.handlers[pid] = f
@@ -173,16 +173,16 @@ func (s *fakeStream) Close() error {
 	}
 	return nil
 }
-func (s *fakeStream) Reset() error                       { return s.Close() }
-func (s *fakeStream) CloseWrite() error                  { return s.Close() }
-func (s *fakeStream) CloseRead() error                   { return nil }
-func (s *fakeStream) SetDeadline(time.Time) error        { return nil }
-func (s *fakeStream) SetReadDeadline(time.Time) error    { return nil }
-func (s *fakeStream) SetWriteDeadline(time.Time) error   { return nil }
-func (s *fakeStream) Conn() network.Conn                 { return &fakeConn{remote: s.remote} }
-func (s *fakeStream) ID() string                         { return "fake" }
-func (s *fakeStream) Protocol() protocol.ID              { return fakeProto }
-func (s *fakeStream) SetProtocol(protocol.ID) error      { return nil }
+func (s *fakeStream) Reset() error                     { return s.Close() }
+func (s *fakeStream) CloseWrite() error                { return s.Close() }
+func (s *fakeStream) CloseRead() error                 { return nil }
+func (s *fakeStream) SetDeadline(time.Time) error      { return nil }
+func (s *fakeStream) SetReadDeadline(time.Time) error  { return nil }
+func (s *fakeStream) SetWriteDeadline(time.Time) error { return nil }
+func (s *fakeStream) Conn() network.Conn               { return &fakeConn{remote: s.remote} }
+func (s *fakeStream) ID() string                       { return "fake" }
+func (s *fakeStream) Protocol() protocol.ID            { return fakeProto }
+func (s *fakeStream) SetProtocol(protocol.ID) error    { return nil }
 
 type fakeConn struct {
 	network.Conn
@@ -194,14 +194,14 @@ func (c *fakeConn) RemotePeer() peer.ID { return c.remote }
 // ---------------------------------------------------------------- ledger around the real communication
 
 type ledgerComm struct {
-	inner p2p.Libp2pCommunication
-	host  *fakeHost
-	mu    sync.Mutex
-	sub   map[string]int // per session id
-	unsub map[string]int
+	inner  p2p.Libp2pCommunication
+	host   *fakeHost
+	mu     sync.Mutex
+	sub    map[string]int // per session id
+	unsub  map[string]int
 	closeN map[string]int
-	live  map[comm.SubscriptionID]string // subscription id -> session id, as handed out and not yet released
-	bcast map[string]int                 // "<sid>/<msgType>"
+	live   map[comm.SubscriptionID]string // subscription id -> session id, as handed out and not yet released
+	bcast  map[string]int                 // "<sid>/<msgType>"
 }
 
 func newLedgerComm(h *fakeHost) *ledgerComm {
@@ -336,10 +336,10 @@ func (p *recProc) Ready(ready []peer.ID, excluded []peer.ID) (bool, error) {
 	}
 	return len(ready) >= p.need, nil
 }
-func (p *recProc) Retryable() bool                                        { return p.retry }
-func (p *recProc) StartParams(ready []peer.ID) []byte                     { return []byte("go") }
-func (p *recProc) SessionID() string                                      { return p.sid }
-func (p *recProc) ValidCoordinators() []peer.ID                           { return p.coords }
+func (p *recProc) Retryable() bool                    { return p.retry }
+func (p *recProc) StartParams(ready []peer.ID) []byte { return []byte("go") }
+func (p *recProc) SessionID() string                  { return p.sid }
+func (p *recProc) ValidCoordinators() []peer.ID       { return p.coords }
 func (p *recProc) counts() (int, int) {
 	p.mu.Lock()
 	defer p.mu.Unlock()
